@@ -6,6 +6,7 @@ import (
 	"os"
 	"path/filepath"
 	"sort"
+	"strings"
 
 	"verifharness/ref/boxwalk"
 	"verifharness/runner"
@@ -524,6 +525,51 @@ type MovieOptions struct {
 	ZeroSizes  bool // some tracks have zero-size samples (whole chunks without a byte when chunks are small)
 	LateSync   bool // some video tracks start inside a GOP: the first sync sample is not sample 1
 	ShortEdits bool // some tracks with an edit list present only a part of their media (tkhd duration shorter than the media)
+	// MoovExtras: two of three movies carry 1..4 non-trak boxes among the children of moov (udta with an unknown child
+	// or empty, free, skip, iods, meta with hdlr, an unknown four-character code): between mvhd and the first trak,
+	// between two traks (so that the trak boxes are not neighbours), behind the last trak, rarely in front of mvhd.
+	// Drawn after everything else: the movie is otherwise the one the same PRNG state gives without the option.
+	MoovExtras bool
+	// AlignedEnds: a quarter of the tracks behind the first one (time scales below 10^6) end exactly where a sync sample
+	// (not the first) of the first track starts: evenly long samples, the remainder in the last one.
+	AlignedEnds bool
+}
+
+// randomMoovExtras draws the non-trak children of moov for a movie with nTracks tracks.
+func randomMoovExtras(r *runner.Rand, nTracks int) []MoovExtra {
+	var out []MoovExtra
+	n := r.Range(1, 4)
+	for i := 0; i < n; i++ {
+		var e MoovExtra
+		switch {
+		case nTracks > 1 && r.Chance(1, 2):
+			e.Slot = r.Range(2, nTracks) // between two traks
+		case r.Chance(1, 12):
+			e.Slot = 0
+		default:
+			e.Slot = r.PickInt(1, nTracks+1, nTracks+1)
+		}
+		e.Type = r.PickStr("udta", "udta", "free", "skip", "iods", "meta", "zzzz")
+		switch e.Type {
+		case "udta":
+			if r.Chance(1, 4) {
+				e.Box = Box("udta")
+			} else {
+				e.Box = Box("udta", Box("Xnam", r.Bytes(r.Range(0, 24))))
+			}
+		case "free", "skip":
+			e.Box = Box(e.Type, make([]byte, r.Range(0, 40)))
+		case "iods":
+			e.Box = FullBox("iods", 0, 0, []byte{0x10, 0x07, 0x00, 0x4f, 0xff, 0xff, 0x0f, 0x7f, 0xff})
+		case "meta":
+			hdlr := FullBox("hdlr", 0, 0, u32(0), []byte("mdir"), make([]byte, 12), []byte("\x00"))
+			e.Box = FullBox("meta", 0, 0, hdlr, Box("ilst"))
+		default:
+			e.Box = Box(e.Type, r.Bytes(r.Range(0, 32)))
+		}
+		out = append(out, e)
+	}
+	return out
 }
 
 // RandomMovie generates a multi-track movie whose tracks cover about the same
@@ -674,6 +720,37 @@ func RandomMovie(r *runner.Rand, o MovieOptions) *File {
 			}
 			for i := 0; i < n; i++ {
 				durs = append(durs, d)
+			}
+		}
+		if o.AlignedEnds && ti > 0 && !o.CarryProbe && t.Timescale < 1000000 && f.Tracks[0].Timescale < 1000000 && r.Chance(1, 4) {
+			t0 := f.Tracks[0]
+			var cands []int64
+			var at uint64
+			for i, s := range t0.Samples {
+				if v := at * uint64(t.Timescale); i > 0 && s.Sync && v%uint64(t0.Timescale) == 0 && v > 0 {
+					cands = append(cands, int64(v/uint64(t0.Timescale)))
+				}
+				at += uint64(s.Dur)
+			}
+			if len(cands) > 0 {
+				target := cands[r.Intn(len(cands))]
+				d := durs[0]
+				if d < 1 {
+					d = 1
+				}
+				nn := target / d
+				if nn < 1 {
+					nn = 1
+				}
+				if nn > int64(o.MaxSamples) {
+					nn = int64(o.MaxSamples)
+				}
+				durs = durs[:0]
+				for i := int64(0); i < nn; i++ {
+					durs = append(durs, target/nn)
+				}
+				durs[nn-1] += target - (target/nn)*nn
+				label += " ends-at-a-sync-sample-of-track-1"
 			}
 		}
 		n := len(durs)
@@ -845,6 +922,10 @@ func RandomMovie(r *runner.Rand, o MovieOptions) *File {
 		}
 		f.TrailingJunk = r.Intn(4)
 		label += "+gaps"
+	}
+	if o.MoovExtras && r.Chance(2, 3) {
+		f.MoovExtras = randomMoovExtras(r, len(f.Tracks))
+		label += " moov=" + strings.Join(f.MoovChildTypes(), ",")
 	}
 	f.DescriptionLabel = label
 	if err := f.Build(); err != nil {
